@@ -90,6 +90,7 @@ class RecRenderer(REAL_RENDERER):
 
 
 KEY_SECRET = b"0123456789abcdef"
+ALG_DEFAULT = [list(b"hmac-sha256")]
 
 
 def build(script, cfg):
@@ -114,7 +115,8 @@ def build(script, cfg):
     keyring = None
     if cfg["key"]:
         kn = c3.mkname(cfg["key"], False)
-        keyring = dns.tsig.Key(kn, KEY_SECRET, "hmac-sha256")
+        alg = ".".join(bytes(l).decode() for l in cfg.get("alg", ALG_DEFAULT)) + "."
+        keyring = dns.tsig.Key(kn, KEY_SECRET, alg)
         m.use_tsig(keyring, tsig_error=cfg.get("terr", 0), other_data=bytes(cfg.get("other", [])))
     return m, index, keyring
 
@@ -142,7 +144,7 @@ def render(script, cfg, tid, built=None):
             ev_done["res"] = "toobig"
         finally:
             dns.renderer.Renderer = REAL_RENDERER
-        if m.tsig is not None and ev_done["res"] == "ok":
+        if m.tsig is not None:       # also after TooBig: the (placeholder) TSIG has the algorithm's MAC size
             ev_done["t48"] = list(m.tsig[0].time_signed.to_bytes(6, "big"))
             ev_done["mac"] = list(m.tsig[0].mac)
         if ev_done["res"] == "ok":
